@@ -956,6 +956,31 @@ class Lowering:
         out.append('}')
         return out
 
+    def s_CXXForRangeStmt(self, n, fs):
+        # clang has already desugared the statement: [init, __range, __begin, __end, cond, inc, loop variable, body]
+        ks = kids(n)
+        if len(ks) != 8:
+            raise Unsupported('range-for with %d children' % len(ks))
+        init, rng, beg, end, cond, inc, var, body = ks
+        out = ['{']
+        if init.get('kind'):
+            out += self.indent(self.stmt(init, fs), 1)
+        for d in (rng, beg, end):
+            out += self.indent(self.stmt(d, fs), 1)
+        ctx = Ctx(fs)
+        c = self.cond(cond, ctx)
+        if ctx.pre:
+            raise Unsupported('range-for condition needs hoisting')
+        ictx = Ctx(fs)
+        i = self.expr(inc, ictx, discard=True)
+        if ictx.pre:
+            raise Unsupported('range-for increment needs hoisting')
+        lc = self.loop_contract(fs)
+        inner = self.stmt(var, fs) + self.block(body, fs)
+        out += self.indent(['for (; %s; %s)' % (c, i)] + lc + ['{'] + self.indent(inner, 1) + ['}'], 1)
+        out.append('}')
+        return out
+
     def s_BreakStmt(self, n, fs):
         return ['break;']
 
